@@ -18,7 +18,7 @@ ASSUMPTIONS = [
     "back-off: integer factory parameters as in the signature; max_exponent capped at 20000 for cost",
 ]
 EVAL_COUNTER = "evaluations"
-REQUIRED = ["backoff_evals", "next_evals", "overdue_evals", "delay_until_ahead", "now_before_base", "now_on_grid", "with_scheduled_time", "stored_bucket_probes"]
+REQUIRED = ["backoff_evals", "next_evals", "overdue_evals", "delay_until_ahead", "now_before_base", "now_on_grid", "with_scheduled_time", "stored_bucket_probes", "timezone_offset_cases"]
 
 US = timedelta(microseconds=1)
 
@@ -34,6 +34,10 @@ def gen_cases(tier, seed):
     for i in range(3 if tier == "quick" else 12):
         cases.append({"kind": "bucket_store", "seed": seed * 1000 + 300 + i})
     cases.append({"kind": "next_grid"})
+    # the same arithmetic where local time is not UTC (every datetime involved is a naive local one)
+    for i, tz in enumerate(("JST-9", "EST5", "IST-5:30", "CHAST-12:45")):
+        cases.append({"kind": "next", "n": n // 2, "seed": seed * 1000 + 400 + i, "tz": tz})
+        cases.append({"kind": "overdue", "n": n // 4, "seed": seed * 1000 + 500 + i, "tz": tz})
     return cases
 
 
@@ -279,6 +283,24 @@ def run_case(case):
     out = []
     fps = set()
     kind = case["kind"]
+    if case.get("tz"):
+        import os
+        import time as _time
+
+        old_tz = os.environ.get("TZ")
+        os.environ["TZ"] = case["tz"]
+        _time.tzset()
+        try:
+            r = run_case({k: v for k, v in case.items() if k != "tz"})
+        finally:
+            if old_tz is None:
+                os.environ.pop("TZ", None)
+            else:
+                os.environ["TZ"] = old_tz
+            _time.tzset()
+        r["stats"]["timezone_offset_cases"] = 1
+        r["fps"] = [f + "/tz" for f in r.get("fps", [])]
+        return r
     if kind == "backoff":
         rnd = random.Random(case["seed"])
         for _ in range(max(1, case["n"] // 40)):
